@@ -38,6 +38,8 @@ class Ref:
     def expect(self, t):
         """returns (expected output or None = not judged, predicate on the actual output or None)"""
         c = t[0]
+        if c == "hend":
+            return None if self.dead else "ok"
         if self.dead:
             return "dead"
         if c == "create":
@@ -141,6 +143,35 @@ class Ref:
         return None
 
 
+def f6b_symptom(t, a, msg):
+    """the symptom of the known finding F6b and nothing else: a registration of the EARLIER incarnation is still there --
+    (a) a function is reachable through the entry-point table that no live owner holds (table is a strict superset),
+    (b) registering a function is refused as 'already registered' although no live owner holds it,
+    (c) the can-register probe says 'n' where the specification says 'y'.
+    Any other deviation in such a history (a live registration lost, an unregister that aborts, wrong owner flags ...) is a different violation."""
+    import re
+    if t[0] == "reg" and a == "abort":
+        return True
+    if t[0] == "stat":
+        m = re.search(r"entry-point table \[(.*?)\] != functions owned by live owners \[(.*?)\]", msg)
+        if m:
+            have = set(x.strip(" '") for x in m.group(1).split(",") if x.strip())
+            want = set(x.strip(" '") for x in m.group(2).split(",") if x.strip())
+            return want < have
+        return False
+    if t[0] == "hprobe":
+        m = re.search(r"-> `canreg=([yn]+)`, expected `canreg=([yn]+)`", msg)
+        if m and len(m.group(1)) == len(m.group(2)):
+            return all(h == w or (h == "n" and w == "y") for h, w in zip(m.group(1), m.group(2)))
+        return False
+    return False
+
+
+def with_end(blocks):
+    """every history ends with `hend`: the sandboxes still created are destroyed, which must not abort"""
+    return [b + ["hend"] for b in blocks]
+
+
 def oracle_block(ops, lines, sig_fn=None):
     import re
     fails = []
@@ -171,7 +202,17 @@ def oracle_block(ops, lines, sig_fn=None):
         elif a != exp:
             msg = f"`{op}` -> `{a}`, expected `{exp}`"
         if msg:
-            sig = sig_fn(ref, t, a, was_tainted or ref.tainted) if sig_fn else None
+            sig = sig_fn(ref, t, a, (was_tainted or ref.tainted) and f6b_symptom(t, a, msg)) if sig_fn else None
             fails.append((idx, msg, sig))
-            break   # the reference and the implementation have diverged; later steps are not comparable
+            # the reference and the implementation have diverged; later steps are not comparable in general -- except
+            # for what the property demands in EVERY state: releasing, destroying or moving an owner, and ending the
+            # history, never abort and never bring the application down
+            for j in (range(idx + 1, len(ops)) if a != "<crash>" else ()):
+                tj, aj = ops[j].split(), lines[j]
+                if aj == "dead":
+                    break
+                if aj == "<crash>" or (tj[0] in ("cbunreg", "cbdestroy", "cbmove", "hend") and aj != "ok"):
+                    fails.append((j, f"`{ops[j]}` -> `{aj}`, expected `ok` in every state (after the divergence at step {idx})", None))
+                    break
+            break
     return fails
